@@ -739,18 +739,41 @@ def wrappers_rule(ctx, facts, rid):
         if fn is None:
             r.anchor_missing("owlchess::movegen::legal::" + nm)
             continue
-        callees = [(t["f"].get("inst") or t["f"].get("ext") or "") for _bi, t in fn.body.calls()]
-        ok_semi = ("owlchess::movegen::semilegal::" + nm) in callees
+        # callees of the wrapper, looking through private helpers of the same module and through Checker's constructors
+        callees, clos, seen, todo = [], [], set(), [fn]
+        while todo:
+            g = todo.pop()
+            if g.id in seen:
+                continue
+            seen.add(g.id)
+            for _bi, t in g.body.calls():
+                f_ = t["f"]
+                c_ = f_.get("inst") or f_.get("ext") or ""
+                callees.append(c_)
+                for h in f_.get("hidden", []) or []:
+                    if h in facts.fns and facts.fns[h].kind == "Closure":
+                        clos.append(facts.fns[h])
+                tgt = facts.fns.get(f_.get("inst")) if f_.get("inst") else None
+                if tgt is not None and len(seen) < 12 and "is_legal" not in tgt.def_path and (
+                        tgt.def_path.startswith("owlchess::movegen::legal::") or
+                        (tgt.def_path.startswith("owlchess::legal::Checker") and tgt.def_path.split("::")[-1] != "new")):
+                    todo.append(tgt)
+        ok_semi = ("owlchess::movegen::semilegal::" + nm) in callees and \
+            not any(c.startswith("owlchess::movegen::semilegal::") and c != "owlchess::movegen::semilegal::" + nm for c in callees)
         ok_retain = any("ArrayVec" in c and "retain" in c for c in callees)
-        ok_chk = any(c.startswith("owlchess::legal::Checker::<'_, owlchess::legal::DefaultPrechecker>::new") for c in callees)
-        clo = facts.fns.get("owlchess::movegen::legal::%s::{closure#0}" % nm)
+        ok_chk = any(c.startswith("owlchess::legal::Checker::<'_, owlchess::legal::DefaultPrechecker>::new") for c in callees) and \
+            any(c.startswith("owlchess::legal::DefaultPrechecker::new") for c in callees)
+        legacy = facts.fns.get("owlchess::movegen::legal::%s::{closure#0}" % nm)
+        if legacy is not None and legacy not in clos:
+            clos.append(legacy)
         ok_clo = False
-        if clo is not None:
+        for clo in clos:
             fb = FxBuilder(facts, stop=("owlchess::legal::Checker::<'a, P>::is_legal",))
             t = fb.tree(clo)
             ret = [x[1] for x in t if x[0] == "ret"]
             s = show(unstamp(ret[0])) if ret else ""
-            ok_clo = s.startswith("is_legal(") and "Not(" not in s
+            if s.startswith("is_legal(") and "Not(" not in s:
+                ok_clo = True
         r.check(ok_semi and ok_retain and ok_chk and ok_clo, "legal::" + nm,
                 "legal::%s is not `semilegal::%s` retained by checker.is_legal(mv) (semi=%s retain=%s checker=%s closure=%s)"
                 % (nm, nm, ok_semi, ok_retain, ok_chk, ok_clo), site=ctx.site(fn), what="legal::%s = semilegal::%s + retain(is_legal)" % (nm, nm))
